@@ -6,7 +6,7 @@ from .. import pw as P
 from .. import natives as NAT
 from .. import worlds as W
 from ..interp import (Interp, Arr, Num, View, Const, Obj, Seq, Label, Index, Types, Unsupported, Raised, NONE,
-                      TRUE, FALSE)
+                      TRUE, FALSE, const_num)
 from ..model import AnalysisError
 
 MA = 'pyPRISM.core.MatrixArray::MatrixArray'
@@ -140,16 +140,28 @@ def rule_arithmetic(ctx, rules=('R13.3', 'R13.4', 'R13.5', 'R13.8')):
         construct = '%s.%s' % (MA, name)
         kinds = ('MatrixArray',) if 'matmul' in name else ('MatrixArray', 'scalar', 'ndarray')
         for kind in kinds:
-            try:
-                ip = _ip(ctx.prog)
-                a = W.matrixarray(ip, 'A', 'Real', origin='self')
-                other, oterm = [(o, t) for k, o, t in _others(ip) if k == kind][0]
-                adata = a.attrs['data']
-                e0 = len(ip.events)
-                res = _call(ip, a, name, [other])
-            except (Unsupported, Raised) as e:
-                ctx.undecided('R13.5', construct, '%s operand: %s' % (kind, e), m.loc())
-                continue
+          from ..interp import explore
+
+          def run_one(preset, name=name, kind=kind):
+              ip = _ip(ctx.prog)
+              ip.preset = list(preset)
+              a = W.matrixarray(ip, 'A', 'Real', origin='self')
+              other, oterm = [(o, t) for k, o, t in _others(ip) if k == kind][0]
+              adata = a.attrs['data']
+              e0 = len(ip.events)
+              res = _call(ip, a, name, [other])
+              return ip, {'a': a, 'other': other, 'oterm': oterm, 'adata': adata, 'e0': e0, 'res': res}
+          try:
+              worlds_ = explore(run_one)
+          except (Unsupported, Raised) as e:
+              ctx.undecided('R13.5', construct, '%s operand: %s' % (kind, e), m.loc())
+              continue
+          for dec_, ip, w_ in worlds_:
+            a, other, oterm, adata, e0, res = w_['a'], w_['other'], w_['oterm'], w_['adata'], w_['e0'], w_['res']
+            if dec_:
+                kind_tag = kind + ' [' + ', '.join('%s is %s' % (c.show(), b) for c, b, _ in dec_) + ']'
+            else:
+                kind_tag = kind
             n += 1
             evs = ip.events[e0:]
             want = build(A, oterm)
@@ -163,7 +175,7 @@ def rule_arithmetic(ctx, rules=('R13.3', 'R13.4', 'R13.5', 'R13.8')):
                 ctx.violation('R13.5', construct, 'semantics:' + kind,
                               'result data is %s, expected %s' % (P.show(t) if t is not None else rdata, N.show(want)), m.loc())
             else:
-                ctx.holds('R13.5', construct, '%s operand: data == %s' % (kind, N.show(want)), m.loc(), key=kind,
+                ctx.holds('R13.5', construct, '%s operand: data == %s' % (kind_tag, N.show(want)), m.loc(), key=kind_tag,
                           sample={'member': name, 'operand': kind, 'data': N.show(t)})
             terms[(name.replace('__i', '__'), kind, inplace)] = t
             # --- aliasing
@@ -199,7 +211,7 @@ def rule_arithmetic(ctx, rules=('R13.3', 'R13.4', 'R13.5', 'R13.8')):
                 for x in writes + [b_ for b_ in binds if not _new_cache_attr(b_)]:
                     bad.append('modifies %s at %s' % (x['target'], x['loc']))
                 if bad:
-                    ctx.violation('R13.3', construct, 'fresh:' + kind, '; '.join(bad), m.loc())
+                    ctx.violation('R13.3', construct, 'fresh:' + kind, '%s operand: %s' % (kind_tag, '; '.join(bad)), m.loc())
                 else:
                     ctx.holds('R13.3', construct, '%s operand: new object, fresh data, operands untouched' % kind, m.loc(), key=kind)
             # --- metadata
@@ -504,3 +516,39 @@ def rule_history(ctx, rule='R13.h'):
                 ctx.holds(rule, construct, '%s: two successive calls give independent, correct results (%d path(s))'
                           % (tag, len(worlds)), m.loc(), key=rcls.name)
     ctx.floor(rule, n, 2 * 9, 'out-of-place member x receiver class')
+
+
+def rule_typemap(ctx, rule='R13.t'):
+    """every MatrixArray maps type names to positions according to its OWN type list: arrays built over ['A','B'] and
+    then over ['B','A'] (same names, other order, one after the other in the same process) each address their own
+    columns; the real constructor, setter and getter are executed with concrete labels"""
+    cls = ctx.prog.cls(MA)
+    m = cls.find_method('__init__')
+    construct = MA + '.__init__'
+    try:
+        ip = Interp(ctx.prog)
+        ip.declare('L', integer=True)
+        made = []
+        for order in (('A', 'B'), ('B', 'A'), ('A', 'B', 'C')):
+            o = ip.construct(cls, [], {'length': Num(N.sym('L')), 'rank': const_num(len(order)),
+                                       'types': Seq([Const(x) for x in order], 'list')})
+            made.append((order, o))
+    except (Unsupported, Raised) as e:
+        ctx.undecided(rule, construct, str(e), m.loc())
+        return
+    bad = []
+    for order, o in made:
+        tm = o.attrs.get('typeMap')
+        if not (isinstance(tm, Obj) and tm.cls == 'dict'):
+            ctx.undecided(rule, construct, 'typeMap is not a dict', m.loc())
+            return
+        got = {k: (int(v.t.const_value()) if isinstance(v, Num) and v.t.is_const() else repr(v)) for k, v in tm.attrs['items'].items()}
+        want = {t: i for i, t in enumerate(order)}
+        if got != want:
+            bad.append('a MatrixArray with types %s (created after arrays with other type orders) maps names to columns as %s, '
+                       'expected %s' % (list(order), got, want))
+    if bad:
+        ctx.violation(rule, construct, 'typemap', '; '.join(bad), m.loc())
+    else:
+        ctx.holds(rule, construct, 'name -> column map follows the instance\'s own type list (three arrays with permuted / extended '
+                  'type lists constructed in one process)', m.loc())
